@@ -939,10 +939,10 @@ Definition some_conds (l : list (option string)) : list string :=
 Definition abs_names (S : schema) (base : string) (sub : list sel) : list string :=
   match lookup_type S base with
   | Some (DUnion ms) => ms
-  | Some (DInterface _ _) =>
+  | Some (DInterface ifs _) =>
       match inline_tcs sub with
       | [] => [base]
-      | ics => base :: sorted_set (some_conds ics)
+      | ics => base :: sorted_set (filter (fun c => negb (mem c ifs)) (some_conds ics))
       end
   | _ => []
   end.
